@@ -106,6 +106,13 @@ def to_coq(c):
             pr, coq_str(c["name"]), values(c.get("sent")), segs(c.get("input")), obs_err(o), o.get("id") or "0",
             o.get("typ", 0), coq_str(o.get("name", "")), values(o.get("fields")), o.get("alloc", 0),
             coq_str(c["rname"]), c.get("cap", 0), segs(c.get("reply")), rerr, values(o.get("rfields")))
+    if op == "hold":
+        def hobs(h):
+            return "(%d, %s, %d, %s, %s)" % (ERRCODE.get(h.get("err", ""), 8), h.get("id") or "0", h.get("typ", 0),
+                                             coq_str(h.get("name", "")), values(h.get("fields")))
+        return "CHold [%s] [%s] [%s]" % ("; ".join(segs(f) for f in c.get("frames") or []),
+                                       "; ".join(hobs(h) for h in o.get("held") or []),
+                                       "; ".join(hobs(h) for h in o.get("after") or []))
     if op == "wrap":
         typ, name, sent = wrap_request(c)
         return "CReal %d %s %s %s %d %s %d %s %s %d %s 0 [] 0 []" % (
@@ -142,6 +149,13 @@ def canon(f):
     if f.get("nil") or int(f.get("i", "0")) == 0:
         return (k, None)                       # error code 0 is "no error" on the wire
     return (k, int(f.get("i", "0")), seg_bytes(f.get("b")))
+
+
+def short(vals):
+    out = []
+    for v in vals:
+        out.append(tuple((x[:12] + b"..(%d bytes)" % len(x)) if isinstance(x, bytes) and len(x) > 16 else x for x in v))
+    return repr(out)[:300]
 
 
 def same_fields(a, b):
@@ -200,6 +214,18 @@ def impl_oracle(c):
         return "decoding crashed the process: %s" % o["crash"][:200]
     if c["op"] == "wrap":
         return wrap_oracle(c)
+    if c["op"] == "hold":
+        # every request still decodes to exactly the values that were encoded AFTER the later frames
+        # have been decoded on the same endpoint
+        for i, (name, sent) in enumerate(zip(c.get("fnames") or [], c.get("fsent") or [])):
+            for when, obs in (("when decoded", o.get("held") or []), ("after %d later frame(s) were decoded" % (len(c["fnames"]) - 1 - i),
+                                                                     o.get("after") or [])):
+                h = obs[i] if i < len(obs) else {}
+                if h.get("err") != "ok" or h.get("name") != name or not same_fields(h.get("fields"), sent):
+                    got = [canon(f) for f in h.get("fields") or []]
+                    return ("held request changed: request %d (%s) %s: its fields read %s, encoded were %s" % (
+                        i, name, when, short(got), short([canon(f) for f in sent])))
+        return None
     if c["op"] == "real":
         # every call kind through the real client transport and the real server entry
         if o.get("err") != "ok":
@@ -251,7 +277,7 @@ def explore(ck, binp, seed, ncases, model_ok, first):
         ck.count(c["stream"], key=(c["op"], c.get("name"), json.dumps(c.get("input")),
                                    json.dumps(c.get("fields")), c.get("cap"), c.get("maxread"), c.get("avail"),
                                    c.get("buflen"), c.get("replen"), c.get("shape"), c.get("scen"), json.dumps(c.get("sent")),
-                                   json.dumps(c.get("rsent")), c.get("cut")),
+                                   json.dumps(c.get("rsent")), c.get("cut"), json.dumps(c.get("frames"))),
                  trivial=trivial)
         why = impl_oracle(c)
         if why and c.get("shape"):
@@ -266,14 +292,16 @@ def explore(ck, binp, seed, ncases, model_ok, first):
 
     # correspondence: model evaluated inside Coq on the same inputs
     if cases and model_ok:
-        shard = 700 if len(cases) <= 4000 else 1500
+        # ~15-50 s and 1-2 GB per 1 500 cases measured; small shards keep eight parallel
+        # evaluations well inside memory and make a failing shard cheap to look at
+        shard = 700 if len(cases) <= 4000 else 500
         mism = []
         mism_dep = []
         jobs = []
         for s in range(0, len(cases), shard):
             part = cases[s:s + shard]
             txt = ("From Coq Require Import List NArith ZArith String.\n"
-                   "From Verif Require Import Lib.Bytes Sni.Wire Sni.WireChunks Sni.WireReader Sni.WireCorr.\n"
+                   "From Verif Require Import Lib.Bytes Sni.Wire Sni.WireChunks Sni.WireReader Sni.WireOwn Sni.WireCorr.\n"
                    "Import ListNotations.\nLocal Open Scope N_scope.\nLocal Open Scope string_scope.\n"
                    "Definition cases : list ccase := [\n  "
                    + ";\n  ".join(to_coq(c) for c in part) + "\n].\n"
@@ -282,12 +310,17 @@ def explore(ck, binp, seed, ncases, model_ok, first):
             jobs.append((s, "cases_%d_%d" % (seed, s // shard), txt))
         from concurrent.futures import ThreadPoolExecutor
         with ThreadPoolExecutor(max_workers=8) as ex:
-            results = list(ex.map(lambda j: (j[0],) + ck.coq_eval(j[1], j[2]), jobs))
+            results = list(ex.map(lambda j: (j[0],) + ck.coq_eval(j[1], j[2], timeout=600 + shard), jobs))
         for s, rc, out in results:
             got = vlib.parse_coq_list_of_nat(out, "M") if rc == 0 else None
             gotd = vlib.parse_coq_list_of_nat(out, "MD") if rc == 0 else None
             if got is None or gotd is None:
-                ck.broken.append({"what": "correspondence evaluation failed", "detail": out[-1500:]})
+                # rc < 0: coqc was killed by that signal (-9: out of memory); 124: the timeout
+                ck.broken.append({"what": "correspondence evaluation failed", "shard": "cases_%d_%d" % (seed, s // shard),
+                                  "exit_status": rc, "cases": "%d..%d" % (s, min(s + shard, len(cases)) - 1),
+                                  "detail": (out[-1500:] if out.strip() else
+                                             "coqc produced no output (exit status %d%s)"
+                                             % (rc, ": killed by signal %d, most likely out of memory" % -rc if rc < 0 else ""))})
                 break
             mism += [s + i for i in got]
             mism_dep += [s + i for i in gotd]
@@ -337,8 +370,10 @@ def run(ck):
         explore(ck, binp, ck.seed, ncases, model_ok, first=True)
         if ck.broken and not any(v["found_input"] for v in ck.violations):
             # something no longer checks but no concrete failing input yet: widen the search
-            ck.log("searching for a failing input with a larger sample")
-            explore(ck, binp, ck.seed + 7919, ncases * 8, model_ok, first=False)
+            # capped: a run with a broken obligation ends within ~4 min (quick) / ~15 min (thorough)
+            extra = 2 * ncases if not ck.thorough else 8000
+            ck.log("searching for a failing input with a larger sample (%d cases)" % extra)
+            explore(ck, binp, ck.seed + 7919, extra, model_ok, first=False)
 
     return ck.finish(
         level="proof",
